@@ -560,70 +560,60 @@ def prefilter_generated(ctx, shim, r, nfonts, per_font):
                          "non-trivial = some glyph was substituted")
 
 
-SYLLABIC_ALPHABETS = {
-    # script: (characters incl. consonants, dependent vowels / signs that form broken clusters when alone, virama-like)
-    "khmer": [0x1780, 0x1781, 0x1798, 0x17B6, 0x17B7, 0x17C1, 0x17C6, 0x17D2, 0x17CB],
-    "myanmar": [0x1000, 0x1001, 0x102B, 0x102D, 0x1031, 0x1036, 0x1039, 0x103A, 0x103B],
-    "buginese": [0x1A00, 0x1A01, 0x1A17, 0x1A18, 0x1A19, 0x1A1B],
-    "devanagari": [0x0915, 0x0916, 0x093E, 0x093F, 0x0947, 0x094D, 0x0902, 0x093C],
-    "bengali": [0x0995, 0x0996, 0x09BE, 0x09BF, 0x09C7, 0x09CD, 0x0981],
-    "javanese": [0xA98F, 0xA990, 0xA9B4, 0xA9B6, 0xA9BA, 0xA9C0, 0xA981],
-}
-SYLLABIC_FEATURES = ["locl", "ccmp", "nukt", "akhn", "rphf", "pref", "rkrf", "blwf", "half", "abvf", "pstf", "cfar", "vatu", "cjct",
-                     "init", "pres", "abvs", "blws", "psts", "haln", "calt", "clig", "liga", "rlig"]
-
-
 def prefilter_syllabic(ctx, shim, r, nfonts, per_font):
-    """Pause functions of the syllabic shapers (reordering, dotted-circle insertion) change the glyph set in the middle of
-    the GSUB pass: lookups keyed on glyphs that only appear there (e.g. the dotted circle) must still run."""
+    """Pause functions of the syllabic shapers (reordering, dotted-circle insertion) change the glyph set in the middle of the GSUB
+    pass: lookups keyed on glyphs that only appear there (e.g. the dotted circle) must still run.  Fonts and texts: tools/syllabic.py
+    (one generated font per (script, GSUB tag) the crate sends to the Indic old / new spec, Khmer, Myanmar or Universal shaper; small
+    SingleSubst / LigatureSubst lookups over {dotted circle, marks, consonants} under features of the shaper's own list, incl. the
+    topographical ones; texts of syllables, broken clusters, typed U+25CC, spaces)."""
+    import syllabic as SY
+    fgroups = SY.feature_groups(shim, r, nfonts, prefix="Y", topographical=True, mark_first_ligatures=True, composites=True)
     groups, meta = [], []
-    for i in range(nfonts):
-        name = r.choice(sorted(SYLLABIC_ALPHABETS))
-        chars = SYLLABIC_ALPHABETS[name] + [0x25CC]
-        cmap = {cp: j + 1 for j, cp in enumerate(chars)}
-        n = len(chars) + 6                      # a few extra glyphs as substitution targets
-        dc = cmap[0x25CC]
-        lookups, feats = [], []
-        for li in range(r.range(1, 4)):
-            k = r.below(4)
-            if k == 0 or li == 0:
-                cov = [dc]                      # keyed on the dotted circle only
-            elif k == 1:
-                cov = sorted(set(r.sample(list(range(1, len(chars) + 1)), r.range(1, 3))))
-            else:
-                cov = sorted(set([dc] + r.sample(list(range(1, len(chars) + 1)), r.range(0, 2))))
-            lookups.append({"type": 1, "flag": 0, "subtables": [{"format": 2, "coverage": cov,
-                            "subst": [r.range(len(chars) + 1, n - 1) for _ in cov]}]})
-            feats.append({"tag": r.choice(SYLLABIC_FEATURES), "lookups": [li]})
-        rec = {"num_glyphs": n, "cmap": cmap, "advances": [500] * n, "gsub": {"features": feats, "lookups": lookups}}
-        try:
-            hexf = fontbuild.hexfont(rec)
-        except fontbuild.FontBuildError:
-            continue
+    for g in fgroups:
         reqs = []
         for _ in range(per_font):
-            text = [r.choice(SYLLABIC_ALPHABETS[name]) for _ in range(r.range(1, 5))]
+            text = SY.syllable_text(r, g)
             t = ",".join(f"{cp:x}:{j}" for j, cp in enumerate(text))
-            reqs.append(f"shape Y{i} - - - {r.choice([0, 3, 0x10])} {r.below(2)} - - - {t}")
-        groups.append([f"font Y{i} {hexf}", "prefilter on"] + reqs + ["prefilter off"] + reqs + ["prefilter on"])
-        meta.append((reqs, dc))
+            sc = g["iso"] if r.chance(3, 4) else "-"
+            reqs.append(f"shape {g['fid']} {r.choice(['-', '-', '-', 'l', 'r', 't'])} {sc} - {r.choice([0, 3, 3, 0x10, 0x43])} {r.below(3)} - - - {t}")
+        mon = [ln for q in reqs for ln in (q, "digestmon")]
+        groups.append([g["reg"], "prefilter on", "digestmon"] + mon + ["prefilter off"] + reqs + ["prefilter on"])
+        meta.append((reqs, g))
     outs = vlib.run_groups(shim, groups, timeout=600)
     total = nontriv = 0
-    for (reqs, dc), o, g in zip(meta, outs, groups):
+    kinds, reported, stale = {}, 0, 0
+    for (reqs, g), o, grp in zip(meta, outs, groups):
         n = len(reqs)
-        on = o[2:2 + n]; off = o[3 + n:3 + 2 * n]
-        for q, x, y in zip(reqs, on, off):
+        on = o[3:3 + 2 * n:2]; events = o[4:4 + 2 * n:2]; off = o[4 + 2 * n:4 + 3 * n]
+        inv = {gid: cp for cp, gid in g["recipe"]["cmap"].items()}
+        for q, x, y, ev in zip(reqs, on, off, events):
             total += 1
-            if len(y.split()) - 2 > len(q.split()[-1].split(",")):
-                nontriv += 1                    # a glyph was inserted (dotted circle)
+            if ev != "0":
+                # the monitor inside apply_layout_table (hook layout::digest_monitor): after some stage the context digest did not
+                # report a glyph of the buffer, i.e. the hypothesis of C10_skip_lookup_sound was false for the following lookups
+                stale += 1
+                if stale <= 3:
+                    ctx.violation(f"the buffer digest kept by apply_layout_table went stale ({ev} stage(s)): a glyph of the buffer is not "
+                                  "reported by it, later lookups covering that glyph are skipped",
+                                  {"stage": "search", "stream": "prefilter-syllabic", "monitor": "digest-superset", "font_line": grp[0],
+                                   "request": q, "font_profile": g["profile"], "stale_stages": ev, "with_prefilter": x,
+                                   "without_prefilter": y})
+            kinds[g["kind"]] = kinds.get(g["kind"], 0) + 1
+            if len(y.split()) - 2 > len(q.split()[-1].split(",")) or any(int(e.split(":")[0]) not in inv for e in y.split()[2:] if y.startswith("ok")):
+                nontriv += 1                    # a glyph was inserted (dotted circle) or substituted
             if x != y:
-                ctx.violation("shaping differs with the digest prefilter on vs off (syllabic shaper, glyph set changed in a pause)",
-                              {"stage": "search", "stream": "prefilter-syllabic", "font_line": g[0], "request": q,
-                               "with_prefilter": x, "without_prefilter": y})
-    ctx.note_search("prefilter-syllabic", total, nontriv,
-                    rule="generated fonts for Khmer / Myanmar / Buginese(USE) / Devanagari / Bengali / Javanese(USE) with single-"
-                         "substitution lookups keyed on the dotted-circle glyph under the syllabic feature tags x short texts with "
-                         "broken clusters; non-trivial = the shaper inserted a glyph")
+                reported += 1
+                if reported <= 5:
+                    ctx.violation("shaping differs with the digest prefilter on vs off (syllabic shaper, glyph set changed in a pause)",
+                                  {"stage": "search", "stream": "prefilter-syllabic", "font_line": grp[0], "request": q,
+                                   "font_profile": g["profile"], "font_recipe": g["recipe"], "with_prefilter": x, "without_prefilter": y})
+    ctx.note_search("prefilter-syllabic", total, nontriv, fonts_by_shaper=kinds, deviations=reported, stale_digest_requests=stale,
+                    rule="generated fonts per (script, GSUB script tag) that the crate sends to the Indic (old / new spec), Khmer, Myanmar or "
+                         "Universal shaper (dispatch asked from the crate), small single / ligature substitutions over {dotted circle, marks, "
+                         "consonants} under the shaper's own feature tags x texts of syllables, broken clusters, typed U+25CC, spaces; two oracles: "
+                         "output with the prefilter on == off, and the monitor `digestmon` (after every stage of apply_layout_table the "
+                         "context digest reports every glyph of the buffer: the hypothesis of C10_skip_lookup_sound); "
+                         "non-trivial = the shaper inserted a glyph or a lookup substituted one")
 
 
 def run(ctx):
@@ -658,11 +648,11 @@ def run(ctx):
 
 def replay(ctx, rp):
     shim = vlib.build_harness()
-    if rp.get("stream") == "prefilter-on-off":
-        lines = [rp["font_line"], "prefilter on", rp["request"], "prefilter off", rp["request"]]
+    if rp.get("stream") in ("prefilter-on-off", "prefilter-syllabic"):
+        lines = [rp["font_line"], "prefilter on", "digestmon", rp["request"], "digestmon", "prefilter off", rp["request"]]
         o = vlib.run_groups(shim, [lines], nproc=1)[0]
-        print("with prefilter   :", o[2]); print("without prefilter:", o[4])
-        return 0 if o[2] == o[4] else 1
+        print("with prefilter   :", o[3]); print("without prefilter:", o[6]); print("stale-digest stages:", o[4])
+        return 0 if o[3] == o[6] and o[4] == "0" else 1
     if rp.get("stream") == "coverage-digest-sound":
         m = vlib.run_lines(shim, [rp["request"]], nproc=1)[0]
         f = vlib.run_lines(shim, [f"digest covget {rp['table_format']} {rp['table']} {rp['glyph']}"], nproc=1)[0]
